@@ -1,5 +1,5 @@
 """C08 — bucket counts follow 'value <= upper bound' for every input."""
-import random, struct
+import random, struct, math
 from grpb import *
 from grpa import mc_module
 LEVEL = "model_checking"
@@ -86,15 +86,100 @@ def run(ctx):
             ctx.violation(key, "%s, buckets %s (scale %g), observations %s: %s" % (variant, rp["case"]["bs"], sc, rp["case"]["obs"], what), rp)
         else:
             nok += 1
-    # recorded random f64 traces: arbitrary finite values; oracle re-computation in observation order (outside the abstract domain)
+    # code -> spec: arbitrary f64 bounds / observations, rank-transformed and judged by HistOracle (TLC)
+    nrec, nrej = random_f64_traces(ctx, exe)
+    nok += nrec - nrej
     ctx.cov.update({
-        "traces_validated_against_impl": nok, "cases": len(cases), "executions": len(jobs), "executions_conforming": nok,
+        "traces_validated_against_impl": nok, "random_f64_cases_judged_by_HistOracle": nrec, "cases": len(cases), "executions": len(jobs), "executions_conforming": nok,
         "samples": [{"bs": [show(x) for x in c["bs"]], "obs": [show(x) for x in c["obs"]], "accept": c["accept"], "cum": c["cum"], "sum": show(c["sum"])} for c in (cases[10], cases[len(cases) // 2], cases[-5])],
         "exhaustive": True,
         "rule": "TLC enumerates all bucket lists of length <=3 over {-Inf,-1,-0,0,1,2,+Inf,NaN} (acceptance) and all accepted lists x observation sequences of length <=%d over 10 values incl. bounds, NaN, infinities; "
                 "each case concretised at scales {1, 0.5, 2^-1074, 2^970} and executed through Histogram, a HistogramVec child, LocalHistogram+flush and a mixed path; buckets, cumulative counts, count and bit-exact sum compared" % (2 if quick else 3),
     })
     ctx.assumptions += ["sums are exact in f64 for the generated integers x scale, so 'sum in observation order' is compared bit for bit"]
+
+
+def random_f64_traces(ctx, exe):
+    from grpa import oracle
+    rnd = random.Random(ctx.seed * 7 + 8)
+    n = 400 if ctx.quick else 20000
+
+    def rf():
+        r = rnd.random()
+        if r < 0.06:
+            return float("nan")
+        if r < 0.12:
+            return rnd.choice([float("inf"), float("-inf")])
+        if r < 0.2:
+            return rnd.choice([0.0, -0.0])
+        if r < 0.6:
+            return struct.unpack("<d", struct.pack("<Q", rnd.getrandbits(64)))[0]
+        return rnd.choice([1.0, -1.0]) * rnd.random() * 10 ** rnd.randint(-3, 3)
+    jobs, raw = [], []
+    for i in range(n):
+        nb = rnd.randint(1, 5)
+        if rnd.random() < 0.7:
+            bs = sorted(set(x for x in (rf() for _ in range(nb)) if x == x))
+            if rnd.random() < 0.2 and bs:
+                bs.append(float("inf"))
+            if not bs:
+                bs = [1.0]
+        else:
+            bs = [rf() for _ in range(nb)]
+        pool = bs + [rf() for _ in range(3)]
+        obs = [rnd.choice(pool) if rnd.random() < 0.5 else rf() for _ in range(rnd.randint(0, 8))]
+        # nextafter neighbours of bounds are the interesting observations
+        obs += [math.nextafter(b, math.inf) for b in bs[:1] if b == b and abs(b) != math.inf] + [math.nextafter(b, -math.inf) for b in bs[-1:] if b == b and abs(b) != math.inf]
+        variant = ["histogram", "vec_child", "local", "mixed"][i % 4]
+        jobs.append({"id": i, "calls": variant_calls(variant, bs, obs)})
+        raw.append((bs, obs, variant))
+    res = run_api(ctx, exe, jobs, "rf64", nproc=12)
+    recs, idx = [], []
+    for j, (bs, obs, variant) in zip(jobs, raw):
+        rs = res[j["id"]]
+        if any("panic" in x for x in rs):
+            ctx.violation("panic", "random f64 case panicked: %s" % [x for x in rs if "panic" in x][0], {"calls": j["calls"], "case": {"bs": bs, "obs": obs, "variant": variant}, "expect": None})
+            continue
+        accepted = all("ok" in x or "skip" in x for x in rs) and "ok" in rs[-1]
+        fin = sorted(set(x for x in bs + obs if x == x and abs(x) != math.inf and x != 0.0))
+        neg = [x for x in fin if x < 0]
+        pos = [x for x in fin if x > 0]
+        # order-preserving ranks: negatives -> -k..-1, zero -> 0, positives -> 1..k
+        rank = {x: -(len(neg) - k) for k, x in enumerate(neg)}
+        rank.update({x: k + 1 for k, x in enumerate(pos)})
+        rank[0.0] = 0
+
+        def ab(x):
+            if x != x:
+                return {"c": "nan", "n": 0}
+            if x == math.inf:
+                return {"c": "pinf", "n": 0}
+            if x == -math.inf:
+                return {"c": "ninf", "n": 0}
+            if x == 0.0 and math.copysign(1, x) < 0:
+                return {"c": "nz", "n": 0}
+            return {"c": "fin", "n": rank[x]}
+        rec = {"bs": [ab(x) for x in bs], "obs": [ab(x) for x in obs], "accepted": accepted, "cum": [], "count": 0}
+        if accepted:
+            h = rs[-1]["ok"]["hist"]
+            rec["cum"] = [b[1] for b in h["b"]]
+            rec["count"] = h["count"]
+            # arithmetic clause, recomputed outside the specification: sum in observation order (direct path only)
+            if variant in ("histogram", "vec_child"):
+                acc = 0.0
+                for x in obs:
+                    acc += x
+                got = fval(h["sum"])
+                if not ((acc != acc and got != got) or fbits(acc) == h["sum"]["bits"]):
+                    ctx.violation("sample-sum-random", "%s: sum of %s in observation order is %r, histogram reports %r" % (variant, obs, acc, got), {"calls": j["calls"], "case": {"bs": bs, "obs": obs, "variant": variant}, "expect": None})
+        recs.append(rec); idx.append((j, bs, obs, variant))
+    rej = oracle(ctx, "HistOracle", "AllOK", recs, "rf64", chunk=5000)
+    for i in sorted(rej):
+        j, bs, obs, variant = idx[i]
+        ctx.violation("random-f64:" + ("acceptance" if recs[i]["accepted"] != (all(x == x for x in bs) and all(a < b for a, b in zip(bs, bs[1:]))) else "counts"),
+                      "%s with bounds %s and observations %s: recorded acceptance/counts %s are rejected by HistOracle" % (variant, bs, obs, {k: recs[i][k] for k in ("accepted", "cum", "count")}),
+                      {"calls": j["calls"], "case": {"bs": bs, "obs": obs, "variant": variant}, "expect": None})
+    return len(recs), len(rej)
 
 
 def judge(c, sc, rs):
